@@ -52,6 +52,13 @@ def hermitian_configs(tier, hermitian=True):
 
     def add(**kw):
         kw.setdefault("hermitian", hermitian)
+        if not hermitian and kw.get("spectrum") in ("sym", "symdeg"):
+            # complex symbolic gaps (atoms |E_a-E_b|^2) are only tractable to 2nd order (probe: order 3 exceeds 300 s / 6 GB);
+            # the real symbolic spectrum keeps the full order, complex exact spectra cover complex energies at higher order.
+            cfgs.append(dict(kw, complex_spectrum=False))
+            if sum(kw["sizes"]) <= 3:
+                cfgs.append(dict(kw, complex_spectrum=True, max_order=min(2, kw["max_order"])))
+            return
         cfgs.append(kw)
 
     quick_layouts = [[1, 1], [1, 2], [2, 1], [2, 2], [1, 1, 1], [1, 1, 2]]
